@@ -397,18 +397,19 @@ func (a *align) RemoveCharacterSites(c []uint8, cutoff float64, ends bool, ignor
 		nbchars = 0
 		total = 0
 		for seq := 0; seq < a.NbSequences(); seq++ {
+			// If it's a gap and we ignore gaps, or if it's a N and we ignore N, then we do not count that
+			// nt/aa, neither in the total nor among the selected characters
+			if (ignoreGaps && a.seqs[seq].sequence[site] == GAP) ||
+				(ignoreNs && (a.seqs[seq].sequence[site] == uint8(all) || a.seqs[seq].sequence[site] == uint8(allc))) {
+				continue
+			}
+			total++
 			selected := gutils.ContainsRune(c, a.seqs[seq].sequence[site], ignoreCase)
 			if reverse {
 				selected = !selected
 			}
 			if selected {
 				nbchars++
-			}
-			// If it's a gap and we ignore gaps, or if it's a N and we ignore N, then we do not count that
-			// nt/aa in the total
-			if !((ignoreGaps && a.seqs[seq].sequence[site] == GAP) ||
-				(ignoreNs && (a.seqs[seq].sequence[site] == uint8(all) || a.seqs[seq].sequence[site] == uint8(allc)))) {
-				total++
 			}
 		}
 		if (cutoff > 0.0 && float64(nbchars) >= cutoff*float64(total)) || (cutoff == 0 && nbchars > 0) {
